@@ -39,7 +39,7 @@ def codeCfg0 : Cfg :=
   { recheck := Generated.C02.removeVersionRechecksRef, cloneLocked := Generated.C02.commitCloneUnderLock,
     allocLocked := Generated.C02.allocUnderCommitLock, findErrReleases := Generated.C02.findErrReleases,
     pendFirst := Generated.C02.pendBeforeCreate, closeCAS := Generated.C02.closeIsCAS,
-    getReaderAtomic := Generated.C02.getReaderOneSection }
+    getReaderAtomic := Generated.C02.getReaderOneSection, listFirst := Generated.C02.listBeforeLive }
 
 def D.empty : D := { cfg := codeCfg0, st := St.init 0 0, readers := [], ok := false }
 
@@ -66,11 +66,12 @@ def pcName : Pc → String
   | .closeOwn => "closeOwn" | .oDecd => "oDecd" | .oRemoved => "oRemoved" | .doStart => "doStart"
   | .doListed => "doListed" | .doPended => "doPended" | .doActived => "doActived" | .doRolled => "doRolled"
   | .doEvicted => "doEvicted" | .doRemoved => "doRemoved" | .done => "done" | .createdU => "createdU"
+  | .doLiveL => "doLiveL"
 
 /-- park points including the one after the table file was created (`ready` of a merging
 compaction, `createdU` in the create-first variant) -/
 def parkAt (b : Job) : Bool :=
-  isPark b.kind b.pc || (b.kind == .compact && b.pc == .ready && !b.trivial) || b.pc == .createdU
+  isPark b.kind b.pc || (b.kind == .compact && b.pc == .ready && !b.trivial) || b.pc == .createdU || b.pc == .doLiveL
 
 /-- run job j until it parks (fuel-bounded) or its next step is not enabled (blocked on the
 version-set mutex / the compacting flag). The flag says whether the job ended at a park point it
@@ -128,7 +129,8 @@ def step' (d : D) (ws : List String) : D × String :=
       answer { cfg := { recheck := Generated.C02.removeVersionRechecksRef, cloneLocked := Generated.C02.commitCloneUnderLock,
                         allocLocked := Generated.C02.allocUnderCommitLock, findErrReleases := Generated.C02.findErrReleases,
                         pendFirst := Generated.C02.pendBeforeCreate, closeCAS := Generated.C02.closeIsCAS,
-                        getReaderAtomic := Generated.C02.getReaderOneSection, threshold := th, rollupOn := ro == 1 },
+                        getReaderAtomic := Generated.C02.getReaderOneSection, listFirst := Generated.C02.listBeforeLive,
+                        threshold := th, rollupOn := ro == 1 },
                st := St.init v0 f0, readers := [], ok := true } "ok"
     | some [v0, f0, th, ro, rc, cl, al] =>
       answer { cfg := { recheck := rc == 1, cloneLocked := cl == 1, allocLocked := al == 1, threshold := th, rollupOn := ro == 1 },
@@ -286,6 +288,22 @@ def step' (d : D) (ws : List String) : D × String :=
   | "spawn" :: "rollup" :: fs =>
     match fs.mapM String.toNat? with
     | some l => act d (.spawn .rollupDone (l.map (fun f => (f, [])))) s!"job={d.st.nJob}"
+    | none => (d, "bad-op")
+  | ["other", what] =>
+    -- one whole operation of another family of the same store (`Act.env`): what it does to the
+    -- shared counters. create: `newVersionID()` for its first version; flush / merging compaction:
+    -- `NextFileNumber()` + the commit's NextFileNumber record + `Clone()`; read: nothing
+    let dd : Option (Nat × Nat) := match what with
+      | "create" => some (0, 1)
+      | "flush" => some (2, 1)
+      | "compact" => some (2, 1)
+      | "read" => some (0, 0)
+      | _ => none
+    match dd with
+    | some (df, dv) =>
+      match step d.cfg d.st (.env df dv) with
+      | some s' => answer { d with st := s' } s!"ok nf={s'.nextFile}"
+      | none => answer d "blocked"
     | none => (d, "bad-op")
   | "cleanup" :: fs =>
     match fs.mapM String.toNat? with
